@@ -396,7 +396,7 @@ mod tcp {
         let n_proxies = rng.urange(4, 8);
         for i in 0..n_proxies {
             let h = i % n_hosts;
-            let port = match std::net::TcpListener::bind("0.0.0.0:0").ok().and_then(|l| l.local_addr().ok()).map(|a| a.port()) {
+            let port = match crate::tcpsys::free_port() {
                 Some(p) => p,
                 None => {
                     cleanup();
